@@ -433,9 +433,13 @@ func readRefs(ctx context.Context, w *world, f *storeFactory, names []int) ([][2
 func Run(raw json.RawMessage) (any, error) {
 	var probe struct {
 		SQL bool `json:"sql"`
+		DDB bool `json:"ddb"`
 	}
 	if err := json.Unmarshal(raw, &probe); err == nil && probe.SQL {
 		return runSQL(raw)
+	}
+	if probe.DDB {
+		return runDDB(raw)
 	}
 	var c Case
 	if err := json.Unmarshal(raw, &c); err != nil {
